@@ -305,6 +305,7 @@ Definition assumed_sections : list (string * list (N * bool * bool)) := [
   ("syncMap.Read", [(0%N, true, false)]);
   ("syncMap.Walk", [(0%N, true, false)]);
   ("syncMap.Write", [(0%N, false, true)]);
-  ("syncMap.deleteExpired", [(0%N, true, false); (0%N, false, true)]);
+  ("syncMap.deleteEntry", [(0%N, false, true)]);     (* CompareAndDelete on the entry deleteExpired was handed *)
+  ("syncMap.deleteExpired", [(0%N, true, false)]);
   ("syncMap.evictLeast", [(0%N, true, false); (0%N, false, true)])
 ]%string.
